@@ -140,7 +140,7 @@ fn build(b: &Base) -> Req {
 }
 
 /// Reference V2 verifier (R4).
-fn verify_v2(req: &Req, now_s: i64, vh_bucket: Option<&str>, secret_of: &dyn Fn(&str) -> Option<String>) -> Verdict {
+pub fn verify_v2(req: &Req, now_s: i64, vh_bucket: Option<&str>, secret_of: &dyn Fn(&str) -> Option<String>) -> Verdict {
     let Some(q) = parse_query(req.query()) else { return Verdict::Reject("query undecodable") };
     let uniq = |name: &str| -> Option<String> {
         let mut it = q.iter().filter(|(n, _)| n == name);
@@ -433,6 +433,11 @@ fn apply(mu: &Mutn, r: &mut Req, keys: &mut Vec<(String, String)>, b: &Base) -> 
 
 pub fn run(ctx: &Ctx) -> (Acc, Report) {
     let mut acc = ctx.acc();
+    // histories first, single-threaded and in a fixed order (see authhist.rs)
+    let (hist_n, hist_steps) = {
+        use crate::props::authhist::Scheme;
+        crate::props::authhist::explore(&mut acc, "C11", &[Scheme::V2Header, Scheme::V2Presigned], 3)
+    };
     let bs = bases(ctx.tier);
     let n_bases = bs.len();
     par_items(&mut acc, &bs, |a, bi, base| {
@@ -497,7 +502,7 @@ pub fn run(ctx: &Ctx) -> (Acc, Report) {
         level: "exploration",
         rule: format!("{n_bases} requests signed by the reference V2 signer (4 methods x 6 paths x path-style|virtual-hosted x 28 query shapes incl. every documented sub-resource alone, pairs, and unlisted parameters x 5 x-amz-header shapes x Date|x-amz-date|both x Content-MD5/Type x header|presigned) ; presigned ones at clock = Expires-1s, Expires-1ms, Expires, +1ms, +999ms, +1s; every single-component mutation of the string-to-sign inputs (method, md5, type, date, each amz header value/removal/addition, each path byte, host bucket, each sub-resource value/removal, addition, each signature character, key id, provider secret, Expires) and 3 rewrites the signature does not bind. Oracle: reference verifier (R4) validated on the 4 documentation examples."),
         exhaustive: true,
-        extra: json!({"base_requests": n_bases}),
+        extra: json!({"histories": hist_n, "history_requests_executed": hist_steps, "history_rule": "all sequences of length 1..3 over 8 requests of this property's scheme(s) (two identities x honest / signed with the other identity's secret x two scopes) plus every pair led by a request of another scheme, on one service instance, single-threaded, fixed order; each verdict = the reference verdict of that request alone", "base_requests": n_bases}),
         assumptions: vec!["clock owned through the verif-hooks seam".into(), "sub-resource list = the documentation's list plus delete and the response-* overrides; `torrent` is not in the grid".into()],
     };
     (acc, rep)
